@@ -181,7 +181,7 @@ def _solve(pc, goal, timeout_ms, expect):
             with open(os.path.join(os.environ["PYVC_DUMP"], "sub_%d.smt2" % int(time.time() * 1000 % 10**8)), "w") as fh:
                 fh.write(s.to_smt2())
         if r == "unknown":
-            fr, be = _fallback(s, max(5, timeout_ms // 1000))
+            fr, be = _fallback(s, max(5, timeout_ms // 3000))
             if fr is not None:
                 r, backend = fr, backend + "+" + be if be not in backend else backend
             elif timeout_ms > QUICK_MS:
